@@ -107,7 +107,7 @@ theorem placeSection_of_diff (ho : PlaceOpts o name pname) (hs0 : CleanStart s0)
     obtain ⟨q, _, e, _, _, hadm, _⟩ := C02.locate_sound _ h _ 0 _ 0 _ hloc hc
     have : q = p := by simp only at e; omega
     subst this
-    exact ⟨Nat.le_of_lt (C02.admissibleB_fit hadm).2, C02.admissibleB_tail hadm⟩
+    exact ⟨(C02.admissibleB_fit hadm).2, C02.admissibleB_tail hadm⟩
   obtain ⟨r, hap, hrout, _, hrfail, hrskip, hrperf, _, _, hrmsgs, hrtty, hrpatch⟩ :=
     applyPatch_place_one (splitLines bytes) h { patch0 with hunks := [h] } (applyOptsOf o)
       (Option.map (fun l => List.map (fun a => !List.isEmpty a && List.head? a != some 110) l) s0.tty)
@@ -261,16 +261,16 @@ theorem C03_run_located_backup (o : Options) (s0 : DState) (name pname bytes old
 def FoundFirstAt (file : List Line) (h : Hunk) (iw : Bool) (maxFuzz : Int) (p : Nat) : Prop :=
   ∀ q, probedBefore (searchStart (h.old.start - 1) 0 file.length) file.length q p → admissibleB file h iw maxFuzz q 0 = false
 
-/-- the same, evaluated (every position visited before `p` is inside the file) -/
+/-- the same, evaluated (every position visited before `p` is inside the file, or its end: D109) -/
 def foundFirstAtB (file : List Line) (h : Hunk) (iw : Bool) (maxFuzz : Int) (p : Nat) : Bool :=
-  (List.range file.length).all fun q =>
+  (List.range (file.length + 1)).all fun q =>
     !decide (probedBefore (searchStart (h.old.start - 1) 0 file.length) file.length q p) || !admissibleB file h iw maxFuzz q 0
 
 theorem foundFirstAtB_sound {file : List Line} {h : Hunk} {iw : Bool} {maxFuzz : Int} {p : Nat} (hp : p < file.length)
     (hb : foundFirstAtB file h iw maxFuzz p = true) : FoundFirstAt file h iw maxFuzz p := by
   intro q hq
   have hs := searchStart_le_size (h.old.start - 1) file.length
-  have hlt : q < file.length := by unfold probedBefore at hq; omega
+  have hlt : q < file.length + 1 := by unfold probedBefore at hq; omega
   unfold foundFirstAtB at hb
   have := List.all_eq_true.1 hb q (List.mem_range.2 hlt)
   simpa [hq] using this
